@@ -37,6 +37,8 @@ fn range_of(op: Op, next_key: u32) -> Vec<u32> {
 /// Keys the op may add.
 fn may_add(op: Op, next_key: u32) -> BTreeSet<u32> {
     match op.k {
+        // (the raw vacant handle may be asked to insert another, absent key: any id used so far)
+        OpK::RawChain if crate::chain::decode(op.arg >> 2).contains(&crate::chain::RV_INSERT_OTHER) => (0..next_key.max(op.key + 1)).collect(),
         OpK::Insert | OpK::EntryChain | OpK::RawChain => [op.key].into_iter().collect(),
         _ => range_of(op, next_key).into_iter().collect(),
     }
